@@ -3,7 +3,9 @@ tallying, chunked multiprocessing, result printing, replay."""
 import json
 import multiprocessing as mp
 import os
+import signal
 import sys
+import threading
 import time
 
 import numpy as np
@@ -71,12 +73,36 @@ def load_utils():
     return utils
 
 
+CALL_TIMEOUT_S = 30.0
+_ALARM_READY = None
+
+
+class LibraryCallTimeout(Exception):
+    """A single library call ran longer than CALL_TIMEOUT_S (reported as a finding, never as a hang)."""
+
+
+def _on_alarm(signum, frame):
+    raise LibraryCallTimeout("library call exceeded %.0f s" % CALL_TIMEOUT_S)
+
+
 def call(f, *args, **kw):
-    """('ok', value) or ('exc', exception)."""
+    """('ok', value) or ('exc', exception).  A call that does not return
+    within CALL_TIMEOUT_S is cut off and counted as an exception."""
+    global _ALARM_READY
+    use_alarm = _ALARM_READY
+    if use_alarm is None:
+        use_alarm = _ALARM_READY = threading.current_thread() is threading.main_thread()
+        if use_alarm:
+            signal.signal(signal.SIGALRM, _on_alarm)
+    if use_alarm:
+        signal.setitimer(signal.ITIMER_REAL, CALL_TIMEOUT_S)
     try:
         return "ok", f(*args, **kw)
     except Exception as e:      # noqa: BLE001 - AssertionError, RecursionError, ... are all findings
         return "exc", e
+    finally:
+        if use_alarm:
+            signal.setitimer(signal.ITIMER_REAL, 0)
 
 
 def snapshot(*arrays):
@@ -120,7 +146,10 @@ class Tally:
         self.counts = {}
 
     def check(self, function, **inputs):
-        n, viols = self.checks[function](**inputs)
+        try:
+            n, viols = self.checks[function](**inputs)
+        except Exception as e:      # noqa: BLE001 - the library returned something the check could not even inspect
+            n, viols = 1, [("result could not be inspected by the harness", "%s: %s" % (type(e).__name__, short(str(e), 200)))]
         self.evals += n
         self.counts[function] = self.counts.get(function, 0) + n
         for clause, observed in viols:
@@ -289,3 +318,22 @@ def expect_value_error(st, r, what):
 
 def unexpected_exception(r, what):
     return [(what + ": raised although the request is valid", "%s: %s" % (type(r).__name__, short(str(r), 200)))]
+
+
+def lib(f, *args, render=None):
+    """Call the library for a written-out sample; never lets an exception of
+    the library escape (a mutated library must not crash the harness)."""
+    st, r = call(f, *args)
+    if st == "exc":
+        return "raised %s: %s" % (type(r).__name__, short(str(r), 120))
+    try:
+        return render(r) if render else jsonable(r)
+    except Exception as e:      # noqa: BLE001
+        return "unrenderable result (%s): %s" % (type(e).__name__, short(r, 120))
+
+
+def safe_samples(fn):
+    try:
+        return fn()
+    except Exception as e:      # noqa: BLE001
+        return [{"error": "sample generation failed: %s: %s" % (type(e).__name__, short(str(e), 200))}]
